@@ -18,6 +18,7 @@ struct Ws {
 
 thread_local! {
     static WS: RefCell<Ws> = RefCell::new(Ws::default());
+    static IDENT_SRC: RefCell<std::collections::HashMap<u32, String>> = RefCell::new(Default::default());
 }
 
 fn rng(r: TextRange) -> String {
@@ -96,6 +97,13 @@ fn run_ws(ws: &mut Ws, args: &[&str]) -> Option<String> {
             Some("ok".into())
         }
         ["ws-end"] => {
+            IDENT_SRC.with(|m| {
+                let mut m = m.borrow_mut();
+                m.clear();
+                for (i, (_, t)) in ws.files.iter().enumerate() {
+                    m.insert(i as u32, t.clone());
+                }
+            });
             build(ws);
             Some("ok".into())
         }
@@ -104,6 +112,7 @@ fn run_ws(ws: &mut Ws, args: &[&str]) -> Option<String> {
             let text = unhex(h)?;
             let mut change = Change::default();
             change.change_file(FileId(f), text.as_str().into());
+            IDENT_SRC.with(|m| m.borrow_mut().insert(f, text.clone()));
             ws.files[f as usize].1 = text;
             ws.host.as_mut()?.apply_change(change);
             Some("ok".into())
@@ -240,6 +249,24 @@ pub fn query(a: &ide::Analysis, args: &[&str]) -> Option<String> {
                 None => "none".into(),
                 Some(s) => format!("{:?} {}", s.active_parameter, hex(&s.signature)),
             })
+        }
+        ["idents", f] => {
+            // every identifier-like token: range, kind, parent kind, text
+            let file = FileId(f.parse().ok()?);
+            let text = IDENT_SRC.with(|m| m.borrow().get(&file.0).cloned())?;
+            let parse = syntax::parse_module(&text);
+            let mut v = Vec::new();
+            for el in parse.syntax_node().descendants_with_tokens() {
+                if let syntax::NodeOrToken::Token(t) = el {
+                    let k = format!("{:?}", t.kind());
+                    if k == "IDENT" || k == "U_IDENT" || k == "DISCARD_IDENT" {
+                        let pk = t.parent().map(|p| format!("{:?}", p.kind())).unwrap_or_default();
+                        let gk = t.parent().and_then(|p| p.parent()).map(|p| format!("{:?}", p.kind())).unwrap_or_default();
+                        v.push(format!("{}:{}:{}:{}:{}", rng(t.text_range()), k, pk, gk, t.text()));
+                    }
+                }
+            }
+            Some(if v.is_empty() { "empty".into() } else { v.join(";") })
         }
         ["tree", f] => {
             let r = a.syntax_tree(FileId(f.parse().ok()?)).ok()?;
